@@ -275,9 +275,7 @@ func roundTrip(doc map[string]interface{}) J {
 		json.Unmarshal(b2, &o2)
 		res["out2"] = o2
 	}()
-	select {
-	case <-done:
-	case <-time.After(5 * time.Second):
+	if !waitDone(done, 5*time.Second) {
 		return J{"hang": true}
 	}
 	return res
